@@ -38,6 +38,7 @@ func checkC10(p *Prog, r *Report) {
 	// D1c the configuration the application computes at start-up does not depend on map iteration order (a restarted process
 	// iterates its maps in another order than the one it replaces)
 	checkWiringMapRanges(p, r, kp)
+	checkReplayedBlockSeesSameInputs(p, r, kp, scope)
 	// D1b … nor in process-wide registries or long-lived objects of other modules (lost on restart, never rolled back)
 	checkProcessWideState(p, r, kp, scope)
 	channels, writes := hiddenStateChannels(p, scope, scope)
